@@ -208,6 +208,11 @@ func GetFaultPart(run *report.Run, st *Setup, cases, faultsPerCase int, minimalO
 					return
 				}
 				run.Count("getfault_followup_builds", 1)
+				if bad := auditAtRest(cache); bad != "" && judge["audit"] {
+					keep = !run.Violation("followup-after-get-fault cache-inconsistent "+strings.Fields(bad)[0]+" "+at, fmt.Sprintf("%s; after the follow-up build (exit %d) the cache at rest is inconsistent: %s", what, obs2.Res.Exit, bad), mkReplay(i, env, obs2)) || keep
+					memoBack()
+					return
+				}
 				for _, v := range vs2 {
 					switch v.Kind {
 					case "bytes", "restore", "exit", "crash", "hang":
